@@ -269,7 +269,11 @@ impl<'a> X<'a> {
     fn oracle(&mut self, kg: &str, extra_facts: &BTreeMap<String, BTreeSet<T>>, extra_rules: &[String], query: &str) -> Result<Vec<T>, String> {
         self.oracle_n += 1;
         let dir = format!("{}/oracle-{}", root_dir(), self.oracle_n);
-        let mut cfg = make_config(&EngineCfg::default());
+        // same worker count as the engine under test: evaluation defects (the business of C01-C08,
+        // not of these scenarios) must cancel out, isolation/visibility/staleness defects must not
+        let mut ocfg = EngineCfg::default();
+        ocfg.num_threads = self.case.cfg.num_threads;
+        let mut cfg = make_config(&ocfg);
         cfg.storage.data_dir = std::path::PathBuf::from(&dir);
         let eng = StorageEngine::new(cfg).map_err(|e| format!("oracle engine: {e}"))?;
         if kg != "default" {
